@@ -444,11 +444,17 @@ func r094(c *an.Ctx) {
 	set := mustFunc(c, rule, resPkg, "Value", "set")
 	if set != nil {
 		name := "(*pkg/resource.Value).set"
-		sends := an.CallsTo(set, "(*"+an.ModulePath+"/internal/minibus.Bus).Send")
-		if len(sends) == 0 {
+		outer := set
+		deep := an.CallsToDeep(set, "(*"+an.ModulePath+"/internal/minibus.Bus).Send")
+		if len(deep) == 0 {
 			c.Bad(rule, name+"|publish", set.Pos(), "Value.set does not publish on the bus")
 		}
-		for i, s := range sends {
+		for i, vc := range deep {
+			s := vc.Inner
+			set := outer
+			if vc.Via != nil {
+				set = vc.Via // the timeout and its error are raised where the send happens
+			}
 			cons := fmt.Sprintf("%s|publish#%d bounded by a timeout", name, i+1)
 			ctxArg := s.Common().Args[1]
 			var wt *ssa.Call
